@@ -62,37 +62,48 @@ Section Rel.
     srel {| s_out := []; s_ctx := c1; s_loc := [] |} {| s_out := []; s_ctx := c2; s_loc := [] |}.
   Proof. intros c1 c2 H. repeat split; auto; apply H. Qed.
 
-  Lemma scope_rel : forall fu v body L1 vals r1 r2, body_ok fu -> rrel r1 r2 ->
-    rrel (fold_left (fun acc val =>
-                 match acc with
-                 | Err e => Err e
-                 | Ok s1 =>
-                     match run_body P1 ts fu false {| s_out := s_out s1; s_ctx := s_ctx s1; s_loc := (v, VStr val) :: L1 |} body with
-                     | Ok s2 => Ok {| s_out := s_out s2; s_ctx := s_ctx s1; s_loc := L1 |}
-                     | Err e => Err e
-                     end
-                 end) vals r1)
-         (fold_left (fun acc val =>
-                 match acc with
-                 | Err e => Err e
-                 | Ok s1 =>
-                     match run_body P2 ts fu false {| s_out := s_out s1; s_ctx := s_ctx s1; s_loc := (v, VStr val) :: L1 |} body with
-                     | Ok s2 => Ok {| s_out := s_out s2; s_ctx := s_ctx s1; s_loc := L1 |}
-                     | Err e => Err e
-                     end
-                 end) vals r2).
+  Definition scope_step (P : policy) (fu : nat) (k : skind) (v : name) (body : list stmt) (L1 : env)
+      (acc : res st) (val : str) : res st :=
+    match acc with
+    | Err e => Err e
+    | Ok s1 =>
+        match run_body P ts fu false
+                {| s_out := s_out s1;
+                   s_ctx := match k with
+                            | KBlockS => p_include P (s_ctx s1) L1 (c_globals (s_ctx s1))
+                            | _ => s_ctx s1 end;
+                   s_loc := match k with KBlock | KBlockS => [] | _ => (v, VStr val) :: L1 end |} body with
+        | Ok s2 => Ok {| s_out := s_out s2; s_ctx := s_ctx s1; s_loc := L1 |}
+        | Err e => Err e
+        end
+    end.
+
+  Lemma scope_rel : forall fu k v body L1 vals r1 r2, body_ok fu -> rrel r1 r2 ->
+    (forall a, r1 = Ok a -> s_loc a = L1) ->
+    rrel (fold_left (scope_step P1 fu k v body L1) vals r1) (fold_left (scope_step P2 fu k v body L1) vals r2).
   Proof.
-    intros fu v body L1 vals. induction vals as [|val r IH]; intros r1 r2 Hb H; [exact H|].
-    cbn [fold_left]. apply IH; [exact Hb|].
-    destruct r1 as [a|e1], r2 as [b|e2]; cbn [rrel] in *; try contradiction; [|exact H].
-    destruct H as [Ho [Hc Hl]].
-    assert (Hs : srel {| s_out := s_out a; s_ctx := s_ctx a; s_loc := (v, VStr val) :: L1 |}
-                      {| s_out := s_out b; s_ctx := s_ctx b; s_loc := (v, VStr val) :: L1 |})
-      by (repeat split; auto; apply Hc).
-    pose proof (Hb false _ _ body Hs) as Hr.
-    destruct (run_body P1 ts fu false _ body) as [x|ex], (run_body P2 ts fu false _ body) as [y|ey];
-      cbn [rrel] in *; try contradiction; [|exact Hr].
-    destruct Hr as [Hxo _]. repeat split; auto; apply Hc.
+    intros fu k v body L1 vals. induction vals as [|val r IH]; intros r1 r2 Hb H HL; [exact H|].
+    cbn [fold_left].
+    assert (Hstep : rrel (scope_step P1 fu k v body L1 r1 val) (scope_step P2 fu k v body L1 r2 val)).
+    { unfold scope_step.
+      destruct r1 as [a|e1], r2 as [b|e2]; cbn [rrel] in *; try contradiction; [|exact H].
+      destruct H as [Ho [Hc Hl]].
+      assert (Hg : c_globals (s_ctx a) = c_globals (s_ctx b)) by apply Hc.
+      assert (Hs : srel {| s_out := s_out a;
+                           s_ctx := match k with KBlockS => p_include P1 (s_ctx a) L1 (c_globals (s_ctx a)) | _ => s_ctx a end;
+                           s_loc := match k with KBlock | KBlockS => [] | _ => (v, VStr val) :: L1 end |}
+                        {| s_out := s_out b;
+                           s_ctx := match k with KBlockS => p_include P2 (s_ctx b) L1 (c_globals (s_ctx b)) | _ => s_ctx b end;
+                           s_loc := match k with KBlock | KBlockS => [] | _ => (v, VStr val) :: L1 end |}).
+      { split; [exact Ho|]. split; [|reflexivity]. cbn [s_ctx].
+        destruct k; try exact Hc. rewrite Hg. now apply (pr_include _ _ HP). }
+      pose proof (Hb false _ _ body Hs) as Hr.
+      destruct (run_body P1 ts fu false _ body) as [x|ex], (run_body P2 ts fu false _ body) as [y|ey];
+        cbn [rrel] in *; try contradiction; [|exact Hr].
+      destruct Hr as [Hxo _]. repeat split; auto; apply Hc. }
+    apply IH; [exact Hb|exact Hstep|].
+    intros a Ha. unfold scope_step in Ha. destruct r1 as [a0|]; [|discriminate].
+    destruct (run_body P1 ts fu false _ body); [|discriminate]. now injection Ha as <-.
   Qed.
 
   Lemma stmt_rel : forall fu, body_ok fu ->
@@ -158,7 +169,8 @@ Section Rel.
       destruct (if wc then _ else _) as [[o1 m1]|e1], (if wc then _ else _) as [[o2 m2]|e2]; try contradiction;
         cbn [rrel]; [|exact Hm].
       injection Hm as _ <-. destruct m1; cbn [rrel]; try reflexivity. now apply from_fold_rel.
-    - rewrite Hl. apply scope_rel; [exact Hb|exact Hs].
+    - rewrite Hl. apply (scope_rel fu k v body (s_loc s2) vals (Ok s1) (Ok s2) Hb Hs).
+      intros a Ha. injection Ha as <-. exact Hl.
   Qed.
 
   Definition stmt_ok (fu : nat) : Prop :=
